@@ -1,5 +1,6 @@
 import Lean.Data.Json
 import Glom.Spec.C10
+import Glom.Spec.C09
 import Glom.Model.C10Env
 /-
   C10 driver: one JSON case in, one JSON verdict out.  (The decoders are shared
@@ -7,7 +8,9 @@ import Glom.Model.C10Env
 
   V:     null | {"b":bool} | {"i":int} | {"f2":twice} | {"s":str} | {"l":[V…]} | {"t":[V…]}
          | {"set":[V…]} | {"fs":[V…]} | {"d":[[V,V]…]} | {"obj":tag}
-  Arg:   {"c":V} | {"t":[V…]}
+  Arg:   {"c":V} | {"t":[V…]} | {"val":V} (Val(v)) | {"seq":[{"c":V}|{"t":[V…]} …],"tuple":bool}
+  (a "pred" / validator node may carry "form":"fn"|"inst"|"partial", a "many" node "as":"list"|"tuple",
+   a check "one_of_as": how the harness built the Python object; the model does not depend on it)
   Spec:  {"k":"t","e":[V…]} | {"k":"val","v":V} | {"k":"M"} | {"k":"msub","e":[V…]}
          | {"k":"mexpr","l":Side,"op":"eq|ne|gt|lt|ge|le","r":Side}      Side: {"m":true}|{"sub":[V…]}|{"c":V}
          | {"k":"and"|"or","cs":[Spec…],"d":Arg|null} | {"k":"not","c":Spec}
@@ -79,8 +82,17 @@ def optField {α} (j : Json) (k : String) (f : Json → Except String α) : Exce
   | .ok v => do return some (← f v)
   | .error _ => .ok none
 
+def argItemOfJson (j : Json) : Except String ArgItem := do
+  if let .ok v := j.getObjVal? "c" then return .const (← vOfJson v)
+  else if let .ok e := j.getObjVal? "t" then return .t (← vsOfJson e)
+  else throw s!"bad Arg item {j.compress}"
+
 def argOfJson (j : Json) : Except String Arg := do
   if let .ok v := j.getObjVal? "c" then return .const (← vOfJson v)
+  else if let .ok v := j.getObjVal? "val" then return .val (← vOfJson v)
+  else if let .ok items := j.getObjVal? "seq" then
+    let tup := match j.getObjValAs? Bool "tuple" with | .ok b => b | .error _ => false
+    return .seq tup (← (← arrOf items).mapM argItemOfJson)
   else if let .ok e := j.getObjVal? "t" then return .t (← vsOfJson e)
   else throw s!"bad Arg {j.compress}"
 
@@ -268,6 +280,59 @@ def worldOfJson (j : Json) : Except String (List (String × String)) := do
       | _ => throw s!"bad class declaration {e.compress}")
   | _ => pure []
 
+/-! ### the catalogue is closed: a name the model does not know is a decode error, not a rejection -/
+
+partial def tyNames : Spec → List String
+  | .ty n => [n]
+  | .and cs _ | .or cs _ | .list cs | .set cs | .fset cs | .tuple cs => cs.flatMap tyNames
+  | .not c | .matchS c _ => tyNames c
+  | .switch cases _ => cases.flatMap (fun p => tyNames p.1 ++ tyNames p.2)
+  | .check a =>
+    (match a.type_ with | some v => v.toList | none => []) ++
+    (match a.instanceOf with | some v => v.toList | none => [])
+  | .dict es => es.flatMap (fun e => tyNames e.2.1 ++ tyNames e.2.2)
+  | _ => []
+
+partial def fnNames : Spec → List String
+  | .pred _ fn => [fn]
+  | .and cs _ | .or cs _ | .list cs | .set cs | .fset cs | .tuple cs => cs.flatMap fnNames
+  | .not c | .matchS c _ => fnNames c
+  | .switch cases _ => cases.flatMap (fun p => fnNames p.1 ++ fnNames p.2)
+  | .check a => (match a.validate with | some v => v.toList.map (·.2) | none => [])
+  | .dict es => es.flatMap (fun e => fnNames e.2.1 ++ fnNames e.2.2)
+  | _ => []
+
+partial def objTags : V → List String
+  | .obj tag => [tag]
+  | .list xs | .tuple xs | .set xs | .fset xs => xs.flatMap objTags
+  | .dict es => es.flatMap (fun e => objTags e.1 ++ objTags e.2)
+  | _ => []
+
+/-- class names the model knows: every row head and every base of the class table of the case,
+    the instance-dependent types, the IntEnum (a type atom only) and the user ABCs -/
+def knownTypes (ct : ClassTable) : List String :=
+  ct.map (·.1) ++ ct.flatMap (·.2) ++ Generated.abcNames ++ protoTable.map (·.1) ++
+    ["Level", "A0", "A1", "A2", "A3"]
+
+def checkNames (ct : ClassTable) (s : Spec) (vs : List V) : Except String Unit := do
+  let known := knownTypes ct
+  for n in tyNames s do
+    if !known.contains n then throw s!"unknown class name {n} (catalogue desync)"
+  for f in fnNames s do
+    if (predTable.lookup f).isNone then throw s!"unknown callable {f} (catalogue desync)"
+  for v in vs do
+    for tag in objTags v do
+      if tag.toList.contains '#' && !(ct.map (·.1)).contains (tagCls tag) then
+        throw s!"object of unknown class {tagCls tag} (catalogue desync)"
+
+/-- "returning the target": for a spec every rule of which hands back the object it was given
+    (`selfP`), a pass must BE the target — the harness observed `result is target` -/
+def sameOK (s : Spec) (obsJ : Json) : Bool :=
+  !C09.selfP s ||
+  (match obsJ.getObjVal? "ok", obsJ.getObjValAs? Bool "same" with
+   | .ok _, .ok b => b
+   | _, _ => true)
+
 /-- the spec object that is used: the one built, or — `how` = `"copy"` / `"deepcopy"` / `"pickle"` —
     a copy of it, as the extracted marker table says it comes out -/
 def usedSpec (how : String) (s : Spec) : Spec :=
@@ -282,6 +347,20 @@ def modelObs (env : Env) (how : String) (s : Spec) (t : V) : Obs :=
 inductive Subject where
   | spec (s : Spec)
   | ops (e : OpExpr)
+
+def opLeaves : OpExpr → List Spec
+  | .leaf s => [s]
+  | .band a b | .bor a b => opLeaves a ++ opLeaves b
+  | .inv a => opLeaves a
+
+def subjectSpec : Subject → Option Spec
+  | .spec s => some s
+  | .ops e => match build expectedBoolOps false e with | .ok s => some s | .error _ => none
+
+def subjectSame (sub : Subject) (obsJ : Json) : Bool :=
+  match subjectSpec sub with
+  | some s => sameOK s obsJ
+  | none => true
 
 structure Judgement where
   agree : Bool
@@ -350,11 +429,20 @@ def runProgCase (j : Json) (pj : Json) : Except String Json := do
     return Json.mkObj [("skip", true), ("why", "T expression as an operand of & | ~ (recorded by TType: C02)")]
   if defs.any opsOutside then
     return Json.mkObj [("skip", true), ("why", "operator applied to plain Python values only")]
-  let impl ← (← arrOf (← j.getObjVal? "impl_steps")).mapM stepObsOfJson
+  let implJs ← arrOf (← j.getObjVal? "impl_steps")
+  let impl ← implJs.mapM stepObsOfJson
+  for st in steps do
+    match st with
+    | .bind e => for s in e.leaves do checkNames genEnv.cls s []
+    | .eval _ t => checkNames genEnv.cls .mtype [t]
   let ct := genEnv.cls
   let model := runProg genEnv steps []
   let agree := model.length == impl.length && (model.zip impl).all (fun p => stepObsAgree p.1 p.2)
-  let holds := checkProg ct steps [] impl
+  -- "returning the target": every evaluation of an object whose definition is a `selfP` tree
+  let sameAll := ((steps.zip implJs).all (fun p => match p.1 with
+    | .eval i _ => subjectSame (.ops (defAt defs i)) p.2
+    | _ => true))
+  let holds := checkProg ct steps [] impl && sameAll
   -- the first statement at which the property fails: the shortest prefix that does not check
   let firstBad := (List.range (steps.length + 1)).find? (fun n =>
     n ≤ impl.length && !checkProg ct (steps.take n) [] (impl.take n))
@@ -389,20 +477,28 @@ def run (j : Json) : Except String Json := do
       return Json.mkObj [("skip", true), ("why", "T expression as an operand of & | ~ (recorded by TType: C02)")]
     if opsOutside e then
       return Json.mkObj [("skip", true), ("why", "operator applied to plain Python values only")]
+  let subSpecs : List Spec := match sub with
+    | .spec s => [s]
+    | .ops e => opLeaves e
   -- the same spec OBJECT evaluated on several targets, one call after the other: every call
   -- must decide its own target as if it were the only one (per-target reference)
   if let .ok (.arr ts) := j.getObjVal? "targets" then
     let targets ← ts.toList.mapM vOfJson
-    let obss ← (← arrOf (← j.getObjVal? "impl_seq")).mapM obsOfJson
+    if targets.isEmpty then throw "empty list of targets"
+    for s in subSpecs do checkNames env.cls s targets
+    let obsJs ← arrOf (← j.getObjVal? "impl_seq")
+    let obss ← obsJs.mapM obsOfJson
     if obss.length != targets.length then
-      -- the constructor failed: one observation
+      -- only a constructor error may stand for the whole sequence
       match obss, targets with
-      | [o], t :: _ =>
-        let r := judge env how sub t o none
+      | [.ctor c], t :: _ =>
+        let r := judge env how sub t (.ctor c) none
         return Json.mkObj [("agree", r.agree), ("holds", r.holds), ("model", obsToJson r.model),
           ("branch", Json.str ("seq-" ++ r.tag)), ("wf", WF genEnv), ("model_holds", r.modelHolds)]
-      | _, _ => throw "impl_seq does not match targets"
-    let rs := (targets.zip obss).map (fun p => judge env how sub p.1 p.2 none)
+      | _, _ => throw "impl_seq does not match targets (one observation per call)"
+    let rs := ((targets.zip obss).zip obsJs).map (fun p =>
+      let r := judge env how sub p.1.1 p.1.2 none
+      { r with holds := r.holds && subjectSame sub p.2 })
     let firstBad := (rs.zipIdx.find? (fun p => !p.1.holds)).map (·.2)
     return Json.mkObj [("agree", rs.all (·.agree)), ("holds", rs.all (·.holds)),
       ("model", Json.arr (rs.map (fun r => obsToJson r.model)).toArray),
@@ -410,10 +506,14 @@ def run (j : Json) : Except String Json := do
       ("first_failing_call", match firstBad with | some i => toJson i | none => Json.null),
       ("wf", WF genEnv), ("model_holds", rs.all (·.modelHolds))]
   let target ← vOfJson (← j.getObjVal? "target")
-  let implObs ← obsOfJson (← j.getObjVal? "impl")
+  for s in subSpecs do checkNames env.cls s [target]
+  let implJ ← j.getObjVal? "impl"
+  let implObs ← obsOfJson implJ
   let bare ← optField j "impl_bare" obsOfJson
   let r := judge env how sub target implObs bare
-  return Json.mkObj [("agree", r.agree), ("holds", r.holds), ("model", obsToJson r.model),
-    ("branch", r.tag), ("wf", WF genEnv), ("model_holds", r.modelHolds)]
+  let same := subjectSame sub implJ &&
+    (match j.getObjVal? "impl_bare" with | .ok bj => bj == Json.null || subjectSame sub bj | .error _ => true)
+  return Json.mkObj [("agree", r.agree), ("holds", r.holds && same), ("model", obsToJson r.model),
+    ("branch", r.tag), ("wf", WF genEnv), ("model_holds", r.modelHolds), ("same_ok", same)]
 
 end Glom.C10.Driver
